@@ -50,7 +50,19 @@ func genRecords(r *rand.Rand, n int) [][]byte {
 		case r.IntN(15) == 0:
 			recs[i] = []byte{}
 		default:
-			b := make([]byte, 1+r.IntN(40))
+			// lengths: mostly short, sometimes at and around buffer-size boundaries
+			ln := 1 + r.IntN(40)
+			switch r.IntN(12) {
+			case 0:
+				ln = []int{55, 56, 63, 64, 65, 119, 120, 127, 128, 129, 255, 256, 257, 511, 512, 513, 1023, 1024, 1025}[r.IntN(19)]
+			case 1:
+				ln = r.IntN(1200)
+			case 2:
+				if r.IntN(8) == 0 {
+					ln = []int{4095, 4096, 4097, 65535, 65536, 65537}[r.IntN(6)]
+				}
+			}
+			b := make([]byte, ln)
 			for j := range b {
 				b[j] = byte(r.IntN(256))
 			}
